@@ -99,6 +99,7 @@ func checkC12(c *Ctx) error {
 	}
 	c.exhaustive = true
 	c12Rebind(c)
+	c12Recv(c)
 	r, err := RunTLC(TLCOpts{Module: "CallBinding", Cfg: "CallBinding.asbuilt.cfg", Workers: 4, Seed: c.Seed, Timeout: 10 * time.Minute, NoCases: true}, nil)
 	if err != nil {
 		return err
@@ -149,6 +150,35 @@ func c12Rebind(c *Ctx) {
 		if o.Panic != "" || o.Hang || o.IsErr || o.Out != p.want || got != p.calls {
 			c.Fail("rebind", fmt.Sprintf("%s: rendered (%q, %v) with calls [%s]; every call goes to the function its name is bound to at that moment: expected %q with calls [%s]", p.src, o.Out, o.Err, got, p.want, p.calls),
 				map[string]interface{}{"gen": "c12Rebind", "source_text": p.src, "observed": o, "calls": got})
+		}
+	}
+}
+
+// c12Probe: a method that reports what it received
+type c12Probe struct{ Name string }
+
+func (p c12Probe) Show(x interface{}) string { return fmt.Sprintf("%s got %T", p.Name, x) }
+func (p c12Probe) Pick(i int) string         { return fmt.Sprintf("%s.Pick(%d)", p.Name, i) }
+
+// c12Recv: an argument of a method call that mentions the variable the receiver path starts from is THAT variable (the whole
+// slice, the function), whatever the receiver is.
+func c12Recv(c *Ctx) {
+	progs := []struct{ src, want string }{
+		{`<%= a[0].Show(a) %>`, "A0 got []main.c12Probe"},
+		{`<%= a[1].Pick(len(a)) %>`, "A1.Pick(2)"},
+		{`<%= mk("z").Show(mk) %>`, "z got func(string) main.c12Probe"},
+		{`<%= a[0].Show(a[1]) %>|<%= a[1].Show(a[0].Name) %>`, "A0 got main.c12Probe|A1 got string"},
+	}
+	for _, p := range progs {
+		ctx := plush.NewContext()
+		ctx.Set("a", []c12Probe{{"A0"}, {"A1"}})
+		ctx.Set("mk", func(n string) c12Probe { return c12Probe{n} })
+		c.Eval("recvroot:" + p.src)
+		c.Rule("recvroot")
+		o := guarded(5*time.Second, func() (string, error) { return plush.Render(p.src, ctx) })
+		if o.Panic != "" || o.Hang || o.IsErr || o.Out != p.want {
+			c.Fail("recvroot", fmt.Sprintf("%s: rendered (%q, %v), expected %q: an argument is evaluated in the caller's scope", p.src, o.Out, o.Err, p.want),
+				map[string]interface{}{"gen": "c12Recv", "source_text": p.src, "observed": o})
 		}
 	}
 }
